@@ -24,6 +24,12 @@ var vC17Faults = []struct {
 	{"writestring", 1, "WriteString(pid)"},
 	{"readdir", 1, "ReadDir#1(segment counter)"},
 	{"readdir", 2, "ReadDir#2(segment listing)"},
+	// the process runs out of file descriptors: the first n calls that need one succeed,
+	// EVERY later one fails (EMFILE) - including whatever the clean-up of the failed open
+	// wants to open - until the open has returned
+	{"fd", 1, "descriptors exhausted after 1"},
+	{"fd", 2, "descriptors exhausted after 2"},
+	{"fd", 3, "descriptors exhausted after 3"},
 }
 
 type vC17Sys struct {
@@ -120,7 +126,11 @@ func (s *vC17Sys) Apply(op vOp, hist []vOp, check bool) {
 	case "Open", "OpenFault":
 		if op.K == "OpenFault" {
 			f := vC17Faults[op.B]
-			s.env.fs.FailOn(f.kind, f.nth)
+			if f.kind == "fd" {
+				s.env.fs.ExhaustDescriptorsAfter(f.nth)
+			} else {
+				s.env.fs.FailOn(f.kind, f.nth)
+			}
 		}
 		st, err := s.env.open(s.cfg(op.C))
 		s.env.fs.ClearFaults()
@@ -128,6 +138,10 @@ func (s *vC17Sys) Apply(op vOp, hist []vOp, check bool) {
 			break
 		}
 		wantOK := s.owner == -1 && op.K == "Open"
+		if op.K == "OpenFault" && vC17Faults[op.B].kind == "fd" && err == nil {
+			// the open needed no more descriptors than were left: an ordinary open
+			wantOK = s.owner == -1
+		}
 		if op.C == 1 && err != nil {
 			// opening with another subset of templates may be refused or not; a refusal is a
 			// failed open like any other (no lock left behind, directory unchanged)
@@ -136,7 +150,7 @@ func (s *vC17Sys) Apply(op vOp, hist []vOp, check bool) {
 		if err == nil {
 			if check && !wantOK {
 				cause := fmt.Sprintf("owner=%d", s.owner)
-				if op.K == "OpenFault" {
+				if op.K == "OpenFault" && vC17Faults[op.B].kind != "fd" {
 					cause = "injected-fault-ignored:" + vC17Faults[op.B].name
 				}
 				s.c.Violation("open-succeeded-but-must-fail", cause, s.cfgS, h(), "OpenPersistentHybridIndex returned a handle")
